@@ -71,7 +71,9 @@ CONSTANTS Peers,      \* peer universe
           G,          \* gracePeriod   (time units)
           I,          \* cleanupInterval
           Buf,        \* capacity of the subscription channel
-          MaxTime, MaxEmit, MaxNet, MaxLearn, MaxClose,   \* bounds of the environment
+          MaxTime, MaxEmit, MaxClose,   \* bounds of the environment
+          StartBy,    \* Start happens at time <= StartBy (the phase of the ticker)
+          InitData,   \* the peerstore knows every peer at the beginning
           Atomic      \* TRUE: a cleanup run is one step (no interference inside it)
 
 Kinds == {"C", "L", "N"}          \* "N": every Connectedness value other than Connected / Limited
@@ -97,29 +99,30 @@ VARIABLES
   cur, reply,   \* peer being handled and the network's answer
   cancelled,    \* Close has cancelled the loop's context
   ncall,        \* Close calls so far
-  nemit, nnet, nlearn,   \* environment budgets
+  nwait,        \* Close calls that have not returned (they wait for the loop to finish)
+  nemit,        \* events emitted so far
   discEmit,     \* ghost: emission time of the event that created disc[p]
   lastEv,       \* ghost: kind of the last event of p the loop has processed ("-" none)
   flipped,      \* ghost: net[cur] changed since the answer
   op            \* output only
 
-mgr  == <<pc, sub, queue, stalled, disc, tickAt, tickPending, now, todo, cur, reply, cancelled>>
-env  == <<time, net, data, addr, ncall, nemit, nnet, nlearn>>
+mgr  == <<pc, sub, queue, stalled, disc, tickAt, tickPending, now, todo, cur, reply, cancelled, nwait>>
+env  == <<time, net, data, addr, ncall, nemit>>
 gh   == <<discEmit, lastEv, flipped>>
 vars == <<mgr, env, gh, op>>
 View == <<mgr, env, gh>>
 ViewNoGhost == <<pc, sub, [i \in 1..Len(queue) |-> <<queue[i].p, queue[i].k>>], <<stalled.p, stalled.k>>, disc, tickAt,
-                 tickPending, now, todo, cur, reply, cancelled, env>>
+                 tickPending, now, todo, cur, reply, cancelled, nwait, env>>
 
 Running == pc \in {"idle", "scan", "asked"}
 Overdue(t) == {p \in Peers : disc[p] # Absent /\ disc[p] + G < t}
 Remembered == {p \in Peers : disc[p] # Absent}
 
 Init ==
-  /\ time = 0 /\ net = [p \in Peers |-> "N"] /\ data = [p \in Peers |-> FALSE] /\ addr = [p \in Peers |-> FALSE]
+  /\ time = 0 /\ net = [p \in Peers |-> "N"] /\ data = [p \in Peers |-> InitData] /\ addr = [p \in Peers |-> InitData]
   /\ pc = "off" /\ sub = FALSE /\ queue = <<>> /\ stalled = None /\ disc = [p \in Peers |-> Absent]
   /\ tickAt = 0 /\ tickPending = FALSE /\ now = 0 /\ todo = {} /\ cur = "-" /\ reply = "-"
-  /\ cancelled = FALSE /\ ncall = 0 /\ nemit = 0 /\ nnet = 0 /\ nlearn = 0
+  /\ cancelled = FALSE /\ ncall = 0 /\ nwait = 0 /\ nemit = 0
   /\ discEmit = [p \in Peers |-> Absent] /\ lastEv = [p \in Peers |-> "-"] /\ flipped = FALSE
   /\ op = [name |-> "init"]
 
@@ -128,10 +131,10 @@ Init ==
 
 \* Start(): subscribe, start the loop, which creates the ticker and arrives at the select.
 Start ==
-  /\ pc = "off"
+  /\ pc = "off" /\ time <= StartBy
   /\ pc' = "idle" /\ sub' = TRUE /\ tickAt' = time + I
   /\ op' = [name |-> "start"]
-  /\ UNCHANGED <<queue, stalled, disc, tickPending, now, todo, cur, reply, cancelled, env, gh>>
+  /\ UNCHANGED <<queue, stalled, disc, tickPending, now, todo, cur, reply, cancelled, nwait, env, gh>>
 
 \* A publisher emits EvtPeerConnectednessChanged{p, k}.  Without a subscriber the event goes nowhere;
 \* with a full channel the publisher blocks holding the bus node's lock (so nobody else can emit).
@@ -146,23 +149,23 @@ Emit(p, k) ==
           /\ op' = [name |-> "emit", p |-> p, k |-> k, blocked |-> FALSE, lost |-> FALSE]
      ELSE /\ stalled' = e /\ UNCHANGED queue
           /\ op' = [name |-> "emit", p |-> p, k |-> k, blocked |-> TRUE, lost |-> FALSE]
-  /\ UNCHANGED <<pc, sub, disc, tickAt, tickPending, now, todo, cur, reply, cancelled,
-                 time, net, data, addr, ncall, nnet, nlearn, gh>>
+  /\ UNCHANGED <<pc, sub, disc, tickAt, tickPending, now, todo, cur, reply, cancelled, nwait,
+                 time, net, data, addr, ncall, gh>>
 
 \* The network's view of p changes (events about it may come later, or never: the swarm coalesces).
 SetNet(p, k) ==
-  /\ nnet < MaxNet /\ k # net[p]
-  /\ nnet' = nnet + 1 /\ net' = [net EXCEPT ![p] = k]
+  /\ k # net[p]
+  /\ net' = [net EXCEPT ![p] = k]
   /\ flipped' = (flipped \/ (pc = "asked" /\ cur = p))
   /\ op' = [name |-> "setnet", p |-> p, k |-> k]
-  /\ UNCHANGED <<mgr, time, data, addr, ncall, nemit, nlearn, discEmit, lastEv>>
+  /\ UNCHANGED <<mgr, time, data, addr, ncall, nemit, discEmit, lastEv>>
 
 \* Somebody (identify, the DHT, ...) stores data about p in every book.
 Learn(p) ==
-  /\ nlearn < MaxLearn /\ ~data[p]
-  /\ nlearn' = nlearn + 1 /\ data' = [data EXCEPT ![p] = TRUE] /\ addr' = [addr EXCEPT ![p] = TRUE]
+  /\ ~data[p]
+  /\ data' = [data EXCEPT ![p] = TRUE] /\ addr' = [addr EXCEPT ![p] = TRUE]
   /\ op' = [name |-> "learn", p |-> p]
-  /\ UNCHANGED <<mgr, time, net, ncall, nemit, nnet, gh>>
+  /\ UNCHANGED <<mgr, time, net, ncall, nemit, gh>>
 
 \* One unit of time passes; the ticker fires on schedule whatever the loop is doing.
 Advance ==
@@ -172,8 +175,8 @@ Advance ==
      THEN tickPending' = TRUE /\ tickAt' = tickAt + I
      ELSE UNCHANGED <<tickPending, tickAt>>
   /\ op' = [name |-> "advance", fires |-> (Running /\ time + 1 = tickAt)]
-  /\ UNCHANGED <<pc, sub, queue, stalled, disc, now, todo, cur, reply, cancelled,
-                 net, data, addr, ncall, nemit, nnet, nlearn, gh>>
+  /\ UNCHANGED <<pc, sub, queue, stalled, disc, now, todo, cur, reply, cancelled, nwait,
+                 net, data, addr, ncall, nemit, gh>>
 
 \* Close() is called: cancels the context of a started loop (nothing to cancel before Start).
 \* The call has returned iff the loop is not running: see CloseReturned.
@@ -181,10 +184,10 @@ CloseCall ==
   /\ ncall < MaxClose
   /\ ncall' = ncall + 1
   /\ cancelled' = (cancelled \/ pc # "off")
-  /\ op' = [name |-> "close"]
+  /\ nwait' = IF Running THEN nwait + 1 ELSE nwait
+  /\ op' = [name |-> "close", returns |-> ~Running]
   /\ UNCHANGED <<pc, sub, queue, stalled, disc, tickAt, tickPending, now, todo, cur, reply,
-                 time, net, data, addr, nemit, nnet, nlearn, gh>>
-CloseReturned == ncall > 0 /\ ~Running
+                 time, net, data, addr, nemit, gh>>
 
 --------------------------------------------------------------------------
 (* the background loop *)
@@ -204,22 +207,23 @@ Recv ==
         ELSE UNCHANGED <<disc, discEmit>>
      /\ lastEv' = [lastEv EXCEPT ![e.p] = e.k]
      /\ op' = [name |-> "recv", p |-> e.p, k |-> e.k, unblocked |-> (stalled # None)]
-  /\ UNCHANGED <<pc, sub, tickAt, tickPending, now, todo, cur, reply, cancelled, env, flipped>>
+  /\ UNCHANGED <<pc, sub, tickAt, tickPending, now, todo, cur, reply, cancelled, nwait, env, flipped>>
 
 \* case <-ticker.C, up to the first network.Connectedness call (or to the end when nobody is overdue)
 TickBegin ==
   /\ ~Atomic /\ pc = "idle" /\ tickPending
-  /\ tickPending' = FALSE /\ now' = time /\ todo' = Overdue(time)
+  /\ tickPending' = FALSE /\ todo' = Overdue(time)
+  /\ now' = IF Overdue(time) = {} THEN 0 ELSE time
   /\ pc' = IF Overdue(time) = {} THEN "idle" ELSE "scan"
   /\ op' = [name |-> "tick", overdue |-> Overdue(time)]
-  /\ UNCHANGED <<sub, queue, stalled, disc, tickAt, cur, reply, cancelled, env, gh>>
+  /\ UNCHANGED <<sub, queue, stalled, disc, tickAt, cur, reply, cancelled, nwait, env, gh>>
 
 \* m.network.Connectedness(p): the range over the map picks the overdue peers in any order
 Query(p) ==
   /\ pc = "scan" /\ p \in todo
   /\ cur' = p /\ reply' = net[p] /\ flipped' = FALSE /\ pc' = "asked"
   /\ op' = [name |-> "query", p |-> p, reply |-> net[p]]
-  /\ UNCHANGED <<sub, queue, stalled, disc, tickAt, tickPending, now, todo, cancelled, env, discEmit, lastEv>>
+  /\ UNCHANGED <<sub, queue, stalled, disc, tickAt, tickPending, now, todo, cancelled, nwait, env, discEmit, lastEv>>
 
 \* the switch on the answer: RemovePeer unless Connected/Limited; delete(disconnected, p) in both cases
 Apply ==
@@ -230,8 +234,10 @@ Apply ==
   /\ disc' = [disc EXCEPT ![cur] = Absent] /\ discEmit' = [discEmit EXCEPT ![cur] = Absent]
   /\ todo' = todo \ {cur}
   /\ pc' = IF todo \ {cur} = {} THEN "idle" ELSE "scan"
-  /\ UNCHANGED <<sub, queue, stalled, tickAt, tickPending, now, cur, reply, cancelled,
-                 time, net, addr, ncall, nemit, nnet, nlearn, lastEv, flipped>>
+  /\ now' = IF todo \ {cur} = {} THEN 0 ELSE now
+  /\ cur' = "-" /\ reply' = "-" /\ flipped' = FALSE
+  /\ UNCHANGED <<sub, queue, stalled, tickAt, tickPending, cancelled, nwait,
+                 time, net, addr, ncall, nemit, lastEv>>
 
 \* the same cleanup run as one step (instances in which nothing interferes inside a run)
 TickAtomic ==
@@ -242,9 +248,9 @@ TickAtomic ==
      /\ disc' = [p \in Peers |-> IF p \in od THEN Absent ELSE disc[p]]
      /\ discEmit' = [p \in Peers |-> IF p \in od THEN Absent ELSE discEmit[p]]
      /\ op' = [name |-> "tick", overdue |-> od, removed |-> rm]
-  /\ tickPending' = FALSE /\ now' = time
-  /\ UNCHANGED <<pc, sub, queue, stalled, tickAt, todo, cur, reply, cancelled,
-                 time, net, addr, ncall, nemit, nnet, nlearn, lastEv, flipped>>
+  /\ tickPending' = FALSE
+  /\ UNCHANGED <<pc, sub, queue, stalled, tickAt, now, todo, cur, reply, cancelled, nwait,
+                 time, net, addr, ncall, nemit, lastEv, flipped>>
 
 \* case <-ctx.Done(): the deferred functions - RemovePeer for everything remembered (network not asked),
 \* ticker.Stop, sub.Close (drains the channel: a blocked publisher returns), refCount.Done
@@ -252,9 +258,9 @@ Exit ==
   /\ pc = "idle" /\ cancelled
   /\ data' = [p \in Peers |-> IF p \in Remembered THEN FALSE ELSE data[p]]
   /\ disc' = [p \in Peers |-> Absent] /\ discEmit' = [p \in Peers |-> Absent]
-  /\ sub' = FALSE /\ queue' = <<>> /\ stalled' = None /\ tickPending' = FALSE /\ pc' = "exited"
-  /\ op' = [name |-> "exit", removed |-> Remembered, unblocked |-> (stalled # None), dropped |-> Len(queue)]
-  /\ UNCHANGED <<tickAt, now, todo, cur, reply, cancelled, time, net, addr, ncall, nemit, nnet, nlearn, lastEv, flipped>>
+  /\ sub' = FALSE /\ queue' = <<>> /\ stalled' = None /\ tickPending' = FALSE /\ pc' = "exited" /\ nwait' = 0
+  /\ op' = [name |-> "exit", removed |-> Remembered, unblocked |-> (stalled # None), dropped |-> Len(queue), returned |-> nwait]
+  /\ UNCHANGED <<tickAt, now, todo, cur, reply, cancelled, time, net, addr, ncall, nemit, lastEv, flipped>>
 
 Env == \/ Start \/ Advance \/ CloseCall
        \/ \E p \in Peers : Learn(p) \/ \E k \in Kinds : (Emit(p, k) \/ SetNet(p, k))
@@ -289,7 +295,7 @@ TypeOK ==
   /\ pc \in {"off", "idle", "scan", "asked", "exited"} /\ sub \in BOOLEAN
   /\ Len(queue) <= Buf /\ \A i \in 1..Len(queue) : queue[i].p \in Peers /\ queue[i].k \in Kinds
   /\ disc \in [Peers -> Times] /\ tickPending \in BOOLEAN /\ todo \subseteq Peers
-  /\ cancelled \in BOOLEAN /\ ncall \in 0..MaxClose
+  /\ cancelled \in BOOLEAN /\ ncall \in 0..MaxClose /\ nwait \in 0..ncall /\ (nwait > 0 => cancelled)
 
 \* K8: the publisher is blocked only on a full channel of a live subscription
 QueueBound == stalled # None => (Len(queue) = Buf /\ sub)
@@ -303,7 +309,7 @@ DiscSound == \A p \in Peers : disc[p] # Absent =>
 Timely == \A p \in Peers : (disc[p] # Absent /\ pc = "idle" /\ ~tickPending) => time < disc[p] + G + I
 
 \* K6/K10: nothing is pending or remembered outside the life of the loop
-Inert == ~Running => /\ Remembered = {} /\ queue = <<>> /\ stalled = None /\ ~sub /\ ~tickPending /\ todo = {}
+Inert == ~Running => /\ nwait = 0 /\ Remembered = {} /\ queue = <<>> /\ stalled = None /\ ~sub /\ ~tickPending /\ todo = {}
 ScanShape == /\ (pc = "scan" => todo # {}) /\ (pc = "asked" => cur \in todo)
              /\ (pc \in {"off", "idle", "exited"} => todo = {})
              /\ \A p \in todo : disc[p] # Absent /\ disc[p] + G < now
@@ -343,5 +349,5 @@ ReachExitConnected == ~(pc = "idle" /\ cancelled /\ \E p \in Remembered : Conn(n
 \* a dropped tick: the loop is inside a run when the next tick is already waiting
 ReachLateTick == ~(pc = "asked" /\ tickPending)
 \* a second grace period of the same peer ends in a second removal
-ReachTwice == ~(\E p \in Peers : pc = "asked" /\ cur = p /\ ~Conn(reply) /\ data[p] /\ nlearn >= 2 /\ lastEv[p] = "N" /\ nemit >= 3)
+ReachTwice == ~(\E p \in Peers : pc = "asked" /\ cur = p /\ ~Conn(reply) /\ data[p] /\ relearnt[p] /\ lastEv[p] = "N" /\ nemit >= 3)
 =============================================================================
